@@ -875,7 +875,31 @@ def param_refusals(rep, rule, idx, only=None):
         except Exception as e:                              # pragma: no cover
             rep.unk(rule, c.fi.site, f"{what} (else {exc})", f"cannot decide: {e}")
             continue
+    # the accepted domain is *closed*: these constructors refuse nothing but what the table lists.  (Bridge and ResourceInfo
+    # have further, loop-shaped refusals that the table does not spell out; they are left open.)
+    from .common import closed_refusals
+    done_specs = []
+    for spec, exc, cond, what in PARAM_REFUSALS:
+        if spec in done_specs or spec in OPEN_CONSTRUCTORS or (only is not None and not any(spec.endswith(o) or o in spec for o in only)):
+            continue
+        done_specs.append(spec)
+        try:
+            closed_refusals(rep, rule, get_fn(idx, spec), f"{spec.split(':')[-1]} refuses nothing but the documented parameter errors")
+        except Exception as e:                              # pragma: no cover
+            rep.unk(rule, "-", f"{spec}: closed refusal set", f"cannot decide: {e}")
+    # interface / component constructors that validate nothing themselves (their signature does): they must not start to
+    for spec in NO_OWN_REFUSALS:
+        if only is not None and not any(spec.endswith(o) or o in spec for o in only):
+            continue
+        try:
+            closed_refusals(rep, rule, get_fn(idx, spec), f"{spec.split(':')[-1]} adds no refusal of its own (its signature validates the parameters)")
+        except Exception as e:
+            rep.unk(rule, "-", f"{spec}: closed refusal set", f"cannot decide: {e}")
     return n
+
+
+OPEN_CONSTRUCTORS = ("csr/reg:Bridge.__init__", "memory:ResourceInfo.__init__")
+NO_OWN_REFUSALS = ("wishbone/bus:Interface.__init__", "csr/bus:Interface.__init__", "csr/bus:Element.__init__", "event:Source.__init__")
 
 
 def arith_refusal_atoms(rep, rule, idx, spec, allowed, allow_if=None, what=None):
